@@ -168,8 +168,14 @@ pub fn check_c08(scn: &Scenario, runs: &[ExecResult]) -> Vec<Violation> {
             if outcome_mismatch("outcome-differs", ci, k, a, b, "scheduled pool vs one thread", &mut out) {
                 continue;
             }
-            if is_real_panic(&a.outcome).is_some() {
-                continue; // panics with one thread too: not a threading matter (C03)
+            if let Some((msg, loc)) = is_real_panic(&a.outcome) {
+                // panics with one thread too: not a threading matter (C03's subject) - unless
+                // it comes from the band-splitting code itself, which also runs (and must
+                // not panic) when the pool has a single thread
+                if loc.contains("threading.rs") {
+                    out.push(viol("panic", ci, k, loc, format!("{} (in the band-count / split code, for every pool size)", msg)));
+                }
+                continue;
             }
             if let Some(i) = first_diff(&a.dst, &b.dst) {
                 let g = a.dst_geo.unwrap();
@@ -383,6 +389,9 @@ pub fn check_c13(scn: &Scenario, runs: &[ExecResult]) -> Vec<Violation> {
         }
         if is_real_panic(&o.outcome).is_some() {
             continue;
+        }
+        if o.outcome != Outcome::Ok {
+            continue; // an Err leaves the (container-specific) sentinel: nothing to compare
         }
         let px = logical_of(o);
         if let Some(i) = first_diff(&px, &base_px) {
